@@ -1,8 +1,7 @@
-(* C06 -- malformed network input only ever surfaces as a parse error.
-   Statements in full; proofs in Proofs/C06_nocrash.v, C06_progress.v, C06_buffered.v. *)
+(* C06: the theorems of Props/C06.v assembled from the lemma files (statements repeated verbatim in Props/C06.v) *)
 From Coq Require Import ZArith List Bool Lia Arith.
 From EN Require Import Lib.Bytes Frame.Framer Frame.ReadUntil Frame.BufReadUntil Frame.JsonRaw Frame.ErrSites Frame.Generic
-  Stream.Consumer Gen.ParamsC06 Run.C06 Proofs.C06_nocrash Proofs.C06_progress Proofs.C06_buffered Proofs.C06_main.
+  Stream.Consumer Gen.ParamsC06 Run.C06 Proofs.C06_nocrash Proofs.C06_progress Proofs.C06_buffered.
 Import ListNotations.
 
 (* ------------------------------------------------------------------------------------------------------------------
@@ -11,19 +10,22 @@ Import ListNotations.
    come from: never from the hand-written scanners, only from an inner library call that answers with a class that
    the except clause guarding it does not name.
    ------------------------------------------------------------------------------------------------------------------ *)
-Theorem parse_total_scanners :
+Lemma parse_total_scanners_pf :
   (forall P sep limit ke (dec : decoder P) st chunk, ffeed (ru_framer sep limit ke dec) st chunk <> Crash) /\
   (forall P size (dec : decoder P) st chunk, ffeed (rx_framer size dec) st chunk <> Crash) /\
   (forall limit st chunk, ffeed (jraw_framer limit) st chunk <> Crash) /\
   (forall P limit (dec : decoder P) st chunk, ffeed (json_framer limit dec) st chunk <> Crash) /\
   (forall P sep limit ke (dec : decoder P) st mem n, bfeed (bru_framer sep limit ke dec) st mem n <> BCrash) /\
   (forall P size (dec : decoder P) st mem n, bfeed (bfx_framer size dec) st mem n <> BCrash).
-Proof. exact parse_total_scanners_pf. Qed.
-Print Assumptions parse_total_scanners.
+Proof.
+  repeat split; intros.
+  - apply ru_feed_no_crash. - apply rx_feed_no_crash. - apply jraw_feed_no_crash. - apply json_feed_no_crash.
+  - apply bru_feed_no_crash. - apply bfx_feed_no_crash.
+Qed.
 
 (* a Crash of the separator / fixed-size / raw-JSON deserializers (copying and buffer-filling) exhibits a payload on
    which the one-shot codec g raised a class k outside [declared] *)
-Theorem parse_total_crash_origin :
+Lemma parse_total_crash_origin_pf :
   forall P (declared : list Z) (g : bytes -> ores P),
   (forall sep limit ke st chunk,
       ffeed (lift_framer (ru_framer sep limit ke (dec_of_ores declared g))) st chunk = Crash ->
@@ -40,11 +42,14 @@ Theorem parse_total_crash_origin :
   (forall size st mem n,
       bfeed (lift_bframer (bfx_framer size (dec_of_ores declared g))) st mem n = BCrash ->
       exists x k, g x = ORaise k /\ memZ k declared = false).
-Proof. exact parse_total_crash_origin_pf. Qed.
-Print Assumptions parse_total_crash_origin.
+Proof.
+  intros P declared g. repeat split; intros.
+  - eapply ru_crash_origin; eauto. - eapply rx_crash_origin; eauto. - eapply json_crash_origin; eauto.
+  - eapply bru_crash_origin; eauto. - eapply bfx_crash_origin; eauto.
+Qed.
 
 (* the generic deserializers: a Crash exhibits a loader / decompressor / inner serializer answer outside the expected set *)
-Theorem parse_total_generic :
+Lemma parse_total_generic_pf :
   (forall P limit (load : bytes -> lres P) expected st chunk,
       ffeed (fb_framer limit load expected) st chunk = Crash ->
       exists content k pos, load content = LRaise k pos /\ expected k = false) /\
@@ -54,24 +59,35 @@ Theorem parse_total_generic :
       (exists x k, inner x = ORaise k /\ inner_declared k = false)) /\
   (forall P (F : framer P) s c, ffeed (wrap_generic F) s c = Crash <-> ffeed F s c = Crash) /\
   (forall P (F : framer P) alloc s m n, bfeed (bwrap_generic F alloc) s m n = BCrash <-> ffeed F s (firstn n m) = Crash).
-Proof. exact parse_total_generic_pf. Qed.
-Print Assumptions parse_total_generic.
+Proof.
+  split; [|split; [|split]].
+  - intros P limit load expected st chunk H. eapply fb_crash_inv. simpl in H. exact H.
+  - intros P D dnew dd deof dunused expected inner inner_declared st chunk H. eapply cz_crash_inv. simpl in H. exact H.
+  - intros. apply wrap_crash_iff.
+  - intros. apply bwrap_crash_iff.
+Qed.
 
 (* ------------------------------------------------------------------------------------------------------------------
    (ii) no_crash_if_declared.
    ------------------------------------------------------------------------------------------------------------------ *)
 (* framer level: if the one-shot codec only raises classes of [declared], no Crash is reachable from any state *)
-Theorem no_crash_if_declared :
+Lemma no_crash_if_declared_pf :
   forall P (declared : list Z) (g : bytes -> ores P), all_declared declared g ->
   (forall sep limit ke st chunk, ffeed (lift_framer (ru_framer sep limit ke (dec_of_ores declared g))) st chunk <> Crash) /\
   (forall size st chunk, ffeed (lift_framer (rx_framer size (dec_of_ores declared g))) st chunk <> Crash) /\
   (forall limit st chunk, ffeed (lift_framer (json_framer limit (dec_of_ores declared g))) st chunk <> Crash) /\
   (forall sep limit ke st mem n, bfeed (lift_bframer (bru_framer sep limit ke (dec_of_ores declared g))) st mem n <> BCrash) /\
   (forall size st mem n, bfeed (lift_bframer (bfx_framer size (dec_of_ores declared g))) st mem n <> BCrash).
-Proof. exact no_crash_if_declared_pf. Qed.
-Print Assumptions no_crash_if_declared.
+Proof.
+  intros P declared g Hd.
+  assert (Hno : ~ exists x k, g x = ORaise k /\ memZ k declared = false)
+    by (intros [x [k [H1 H2]]]; specialize (Hd _ _ H1); congruence).
+  repeat split; intros; intros Hc; apply Hno.
+  - eapply ru_crash_origin; eauto. - eapply rx_crash_origin; eauto. - eapply json_crash_origin; eauto.
+  - eapply bru_crash_origin; eauto. - eapply bfx_crash_origin; eauto.
+Qed.
 
-Theorem no_crash_if_declared_generic :
+Lemma no_crash_if_declared_generic_pf :
   (forall P limit (load : bytes -> lres P) expected,
       (forall content k pos, load content = LRaise k pos -> expected k = true) ->
       forall st chunk, ffeed (wrap_generic (fb_framer limit load expected)) st chunk <> Crash) /\
@@ -79,25 +95,28 @@ Theorem no_crash_if_declared_generic :
       (forall d c k, dd d c = inr k -> expected k = true) ->
       (forall x k, inner x = ORaise k -> inner_declared k = true) ->
       forall st chunk, ffeed (wrap_generic (cz_framer D dnew dd deof dunused expected inner inner_declared)) st chunk <> Crash).
-Proof. exact no_crash_if_declared_generic_pf. Qed.
-Print Assumptions no_crash_if_declared_generic.
+Proof.
+  split.
+  - intros P limit load expected Hd st chunk Hc. apply (proj1 (wrap_crash_iff _ _ _)) in Hc. revert Hc. simpl. apply fb_no_crash. exact Hd.
+  - intros P D dnew dd deof dunused expected inner inner_declared H1 H2 st chunk Hc. apply (proj1 (wrap_crash_iff _ _ _)) in Hc. revert Hc.
+    simpl. apply cz_no_crash; assumption.
+Qed.
 
 (* from library answers to [all_declared]: H_declared says that every exception a library raises at call site s is
    caught by one of the handlers of the try statement guarding that site; then what leaves the method is a declared
    class, provided every handler of the table raises a declared class *)
-Theorem declared_answers_give_declared_codec :
+Lemma declared_answers_give_declared_codec_pf :
   forall P (declared : list Z) own (sites : list trysite) (tab : bytes -> ans P),
   sites_ok declared sites = true -> memZ own declared = true ->
   (forall x s k, tab x = ARaise s k -> caught_at sites s k = true) ->
   all_declared declared (fun x => handle own sites (tab x)).
-Proof. exact declared_answers_give_declared_codec_pf. Qed.
-Print Assumptions declared_answers_give_declared_codec.
+Proof. intros; apply handle_all_declared; assumption. Qed.
 
 (* the tables regenerated from /repo's except clauses: every handler of every deserializer raises a class that its caller
    turns into a parse error (one-shot: DeserializeError family; stream protocols: what build_packet_from_chunks /
    build_packet_from_buffer convert to StreamProtocolParseError; datagram: DatagramProtocolParseError).
    Finite table, checked completely by vm_compute. *)
-Theorem declared_sites_sound :
+Lemma declared_sites_sound_pf :
   sites_ok deserialize_codes (json_oneshot ++ line_oneshot ++ struct_oneshot ++ namedtuple_from_tuple ++ base64_oneshot ++ pickle_oneshot) = true /\
   forallb (fun k => memZ k deserialize_codes) [c_DeserializeError; fb_oneshot_eof_raised; fb_oneshot_raised; cz_oneshot_raised] = true /\
   sites_ok stream_declared (json_incr ++ line_incr ++ [fixed_incr; autosep_incr; cz_incr_inner]) = true /\
@@ -107,33 +126,36 @@ Theorem declared_sites_sound :
   forallb (fun k => forallb (fun t => existsb (fun h => memZ k (fst h)) t) [fixed_incr; fixed_buf; autosep_incr; autosep_buf; cz_incr_inner; dgram_protocol])
           deserialize_codes = true /\
   forallb (fun h => Z.eqb (snd h) c_DatagramProtocolParseError) dgram_protocol = true.
-Proof. exact declared_sites_sound_pf. Qed.
-Print Assumptions declared_sites_sound.
+Proof. vm_compute. repeat split. Qed.
 
 (* the flagship instance, closed: JSONSerializer (raw mode) through StreamProtocol and StreamDataConsumer, with the
    regenerated tables: if str() and JSONDecoder.decode only raise classes their except clauses name, no chunking of no
    input makes the consumer raise RuntimeError *)
-Theorem json_consumer_no_crash_if_declared :
+Lemma json_consumer_no_crash_if_declared_pf :
   forall limit (tab : bytes -> ans pk),
   (forall x, tab x <> ABad) ->
   (forall x s k, tab x = ARaise s k -> caught_at json_incr s k = true) ->
   let F := lift_framer (json_framer limit (dec_of_ores stream_declared (fun x => handle c_DeserializeError json_incr (tab x)))) in
   forall fuel chunks, Forall (fun r => r <> RCrash) (snd (cdeliver F fuel (cinit F) chunks)).
-Proof. exact json_consumer_no_crash_if_declared_pf. Qed.
-Print Assumptions json_consumer_no_crash_if_declared.
+Proof.
+  intros limit tab Hb Ha F fuel chunks. apply cdeliver_no_crash. intros s c.
+  apply (no_crash_if_all_declared stream_declared _ (fun d => json_framer limit d)).
+  - intros; apply json_feed_no_crash.
+  - intros dec s0 c0 p rest H. simpl in H. eapply json_done_from_dec; eassumption.
+  - apply handle_all_declared_nobad; [vm_compute; reflexivity|assumption|assumption].
+Qed.
 
 (* consumer level, any framer: no RCrash event for any chunk list *)
-Theorem consumer_no_crash :
+Lemma consumer_no_crash_pf :
   forall P (F : framer P), (forall s c, ffeed F s c <> Crash) ->
   forall fuel chunks c, Forall (fun r => r <> RCrash) (snd (cdeliver F fuel c chunks)).
-Proof. exact consumer_no_crash_pf. Qed.
-Print Assumptions consumer_no_crash.
+Proof. intros; apply cdeliver_no_crash; assumption. Qed.
 
 (* ------------------------------------------------------------------------------------------------------------------
    (iii) error_makes_progress: with [held s] = the bytes a suspended generator keeps, every Done and every Fail leaves
    strictly fewer bytes than it was given since its previous event (held s + length chunk); Need keeps at most that.
    ------------------------------------------------------------------------------------------------------------------ *)
-Theorem error_makes_progress :
+Lemma error_makes_progress_pf :
   (forall P sep limit ke (dec : decoder P), 1 <= length sep -> progressive (ru_framer sep limit ke dec) ru_held) /\
   (forall P size (dec : decoder P), 1 <= size -> progressive (rx_framer size dec) rx_held) /\
   (forall P limit (dec : decoder P), progressive (json_framer limit dec) j_held) /\
@@ -147,10 +169,17 @@ Theorem error_makes_progress :
       progressive (cz_framer D dnew dd deof dunused expected inner inner_declared) (fun _ => 0)) /\
   (forall P (F : framer P) held, progressive F held -> progressive (wrap_generic F) held) /\
   (forall P (F : framer (epkt P)) held, progressive F held -> progressive (lift_framer F) held).
-Proof. exact error_makes_progress_pf. Qed.
-Print Assumptions error_makes_progress.
+Proof.
+  split; [intros; apply ru_progressive; assumption|].
+  split; [intros; apply rx_progressive; assumption|].
+  split; [intros; apply json_progressive|].
+  split; [intros; apply fb_progressive; assumption|].
+  split; [intros; apply cz_progressive; assumption|].
+  split; [intros; apply wrap_progressive; assumption|].
+  intros; apply lift_progressive; assumption.
+Qed.
 
-Theorem error_makes_progress_buffered :
+Lemma error_makes_progress_buffered_pf :
   (forall P sep limit ke (dec : decoder P) st mem n, 1 <= length sep ->
       match bfeed (bru_framer sep limit ke dec) st mem n with
       | BNeed (buflen', _) start => buflen' = fst st + n /\ start = fst st + n
@@ -170,8 +199,11 @@ Theorem error_makes_progress_buffered :
       | BDone _ rest | BFail _ rest => length rest < held s + n
       | BCrash => True
       end).
-Proof. exact error_makes_progress_buffered_pf. Qed.
-Print Assumptions error_makes_progress_buffered.
+Proof.
+  split; [intros; apply bru_feed_progress; assumption|].
+  split; [intros; apply bfx_feed_progress; assumption|].
+  intros; apply bwrap_progress; assumption.
+Qed.
 
 (* ------------------------------------------------------------------------------------------------------------------
    skip_errors_terminates (copying consumer): a receive loop that keeps calling next() whatever it returns produces,
@@ -179,48 +211,18 @@ Print Assumptions error_makes_progress_buffered.
    buffered at the end is bounded by the rest; and after each chunk the drain loop has stopped by itself
    (next(None) raises StopIteration) as soon as its fuel covers the backlog -- it never spins.
    ------------------------------------------------------------------------------------------------------------------ *)
-Theorem skip_errors_terminates :
+Lemma skip_errors_terminates_pf :
   forall P (F : framer P) held, progressive F held ->
   (forall fuel chunks,
       let '(c', evs) := cdeliver F fuel (cinit F) chunks in
       length evs + phi F held c' <= Proofs.C06_progress.total_len chunks) /\
   (forall fuel c (chunk : bytes), phi F held c + length chunk <= fuel ->
       let '(c', _) := cstep F fuel c chunk in snd (cnext F c' None) = RStop).
-Proof. exact skip_errors_terminates_pf. Qed.
-Print Assumptions skip_errors_terminates.
-
-(* ---- non-vacuity ---- *)
-(* Crash is reachable: a codec that lets class 6 (RecursionError) escape, as JSONSerializer did before the F3 fix *)
-Example crash_reachable_when_undeclared :
-  ffeed (lift_framer (json_framer 100 (dec_of_ores [41; 42]%Z (fun _ : bytes => @ORaise bytes 6%Z)))) JInit [91; 93]%N = Crash.
-Proof. vm_compute. reflexivity. Qed.
-
-(* ... and the same input is a parse error with an empty remainder once the class is declared *)
-Example fail_when_declared :
-  ffeed (lift_framer (json_framer 100 (dec_of_ores [41; 42]%Z (fun _ : bytes => @ORaise bytes 41%Z)))) JInit [91; 93; 32]%N
-  = Fail EDecode [].
-Proof. vm_compute. reflexivity. Qed.
-
-Example all_declared_satisfiable : all_declared [41; 42]%Z (fun x : bytes => match x with [] => OOk x | _ => ORaise 41%Z end).
-Proof. intros x k. destruct x; intros H; inversion H; reflexivity. Qed.
-
-(* a loader satisfying the three hypotheses of the file-based progress theorem: one length byte n, then n bytes *)
-Definition toy_load (content : bytes) : lres bytes :=
-  match content with
-  | [] => LEof 0
-  | n :: rest => if Nat.ltb (length rest) (N.to_nat n) then LEof (length content)
-                 else LDone (firstn (N.to_nat n) rest) (S (N.to_nat n))
-  end.
-Example toy_load_hypotheses :
-  (forall content pos, toy_load content = LEof pos -> pos <= length content) /\
-  (forall content p pos, toy_load content = LDone p pos -> 1 <= pos) /\
-  (forall content k pos, toy_load content = LRaise k pos -> 1 <= pos).
 Proof.
-  unfold toy_load. repeat split; intros content; destruct content as [|n rest]; intros;
-    try destruct (Nat.ltb _ _); try congruence; inversion H; subst; simpl; lia.
+  intros P F held HF. split.
+  - intros fuel chunks. pose proof (cdeliver_phi F held HF fuel chunks (cinit F)) as H.
+    destruct (cdeliver F fuel (cinit F) chunks) as [c' evs].
+    assert (H0 : phi F held (cinit F) = 0) by (unfold phi; simpl; reflexivity). lia.
+  - intros fuel c chunk Hf. apply (cstep_stops F held HF); assumption.
 Qed.
 
-(* the progress hypothesis on the loader is necessary: a loader that fails without reading makes no progress *)
-Example rewinding_loader_makes_no_progress :
-  ffeed (fb_framer 100 (fun _ : bytes => @LRaise bytes 2%Z 0) (fun _ => true)) None [1; 2; 3]%N = Fail EDecode [1; 2; 3]%N.
-Proof. vm_compute. reflexivity. Qed.
